@@ -243,8 +243,9 @@ func fnName(f *ssa.Function) string {
 }
 
 // despillReturns undoes go/ssa's result spilling in functions that contain a defer: there every
-// "return v" is built as "*r = v; rundefers; t = *r; return t" with r a local cell per result. When the cell is a
-// plain local (never captured: no deferred closure can change it) and the store precedes the load in the
+// "return v" is built as "*r = v; rundefers; t = *r; return t" with r a cell per result. When the cell is only
+// stored to and loaded from in the function itself (captured at most by closures that only read it: no
+// deferred closure can change it) and the store precedes the load in the
 // same block with no other store to the cell in between, the return operand is replaced by the stored value,
 // so the rules see the same shape whether or not the function has a defer. The recover block's return (no
 // predecessor) is left alone.
@@ -266,7 +267,7 @@ func despillReturns(fn *ssa.Function) {
 				continue
 			}
 			al, ok := ld.X.(*ssa.Alloc)
-			if !ok || al.Heap || al.Referrers() == nil {
+			if !ok || al.Referrers() == nil {
 				continue
 			}
 			plain := true
@@ -277,6 +278,11 @@ func despillReturns(fn *ssa.Function) {
 						plain = false
 					}
 				case *ssa.UnOp, *ssa.DebugRef:
+				case *ssa.MakeClosure:
+					// a closure (typically the deferred one) that only reads the cell cannot change the result
+					if !closureOnlyReads(x, al, 0) {
+						plain = false
+					}
 				default:
 					plain = false
 				}
@@ -302,4 +308,34 @@ func despillReturns(fn *ssa.Function) {
 			}
 		}
 	}
+}
+
+// closureOnlyReads: the closure made by mc uses the captured cell only by loading from it (also in closures
+// it makes in turn, to depth 2).
+func closureOnlyReads(mc *ssa.MakeClosure, cell ssa.Value, depth int) bool {
+	g, ok := mc.Fn.(*ssa.Function)
+	if !ok || depth > 2 {
+		return false
+	}
+	for i, b := range mc.Bindings {
+		if b != cell || i >= len(g.FreeVars) {
+			continue
+		}
+		fv := g.FreeVars[i]
+		if fv.Referrers() == nil {
+			return false
+		}
+		for _, r := range *fv.Referrers() {
+			switch x := r.(type) {
+			case *ssa.UnOp, *ssa.DebugRef:
+			case *ssa.MakeClosure:
+				if !closureOnlyReads(x, fv, depth+1) {
+					return false
+				}
+			default:
+				return false
+			}
+		}
+	}
+	return true
 }
